@@ -67,7 +67,7 @@ Srv == Negotiate(scn)
 (* Environment: scenario construction.                                     *)
 (***************************************************************************)
 Init ==
-    /\ scn = [cfg |-> DefaultCfg, cl |-> DefaultCl, hd |-> DefaultHd]
+    /\ scn = [cfg |-> DefaultCfg, cl |-> DefaultCl, hd |-> DefaultHd, emptyfirst |-> FALSE]
     /\ ph = "cfg"
     /\ m = [x |-> 0]
 
@@ -91,7 +91,7 @@ ChooseClient ==
          /\ SrvProto(scn.cfg, ProtoOf(f)) = "rest" => RestCallable(meth)
          /\ scn' = [scn EXCEPT !.cl.form = f, !.cl.codec = c, !.cl.comp = z, !.cl.method = meth,
                                !.cl.major = MajorFor(f, meth),
-                               !.cl.accept = IF z = "" THEN <<>> ELSE <<z>>,
+                               !.cl.accept = IF z \in {"", "identity"} THEN <<>> ELSE <<z>>,
                                \* a Connect GET for a method with side effects must be refused (C19)
                                !.cl.rej = IF f = "connect_get" /\ ~MethodInfo(meth).nse THEN "rpc-get-notnse" ELSE ""]
     /\ ph' = "reqframes"
@@ -101,11 +101,11 @@ ChooseReqFrames ==
     /\ ph = "reqframes"
     /\ LET st == MethodInfo(scn.cl.method).stream
            counts == IF st \in {"unary", "server"} THEN {1} ELSE 0..MaxMsgs
-           zok == scn.cl.comp # "" /\ Enveloped(scn.cl.form) /\ Mode \in {"matrix", "faults"}
+           zok == scn.cl.comp \notin {"", "identity"} /\ Enveloped(scn.cl.form) /\ Mode \in {"matrix", "faults"}
        IN \E n \in counts : \E fs \in FrameSeqs(n, 0, zok) :
             scn' = [scn EXCEPT !.cl.frames =
                       IF Enveloped(scn.cl.form) /\ zok THEN fs
-                      ELSE [i \in DOMAIN fs |-> [fs[i] EXCEPT !.z = scn.cl.comp # ""]]]
+                      ELSE [i \in DOMAIN fs |-> [fs[i] EXCEPT !.z = scn.cl.comp \notin {"", "identity"}]]]
     /\ ph' = IF Mode = "faults" THEN "clientfault" ELSE IF Mode = "headers" THEN "reqhdrs" ELSE "handler"
     /\ UNCHANGED m
 
@@ -182,7 +182,7 @@ ChooseReject ==
     /\ UNCHANGED m
 
 \* ---- the backend handler's script
-HandlerComps == {""} \cup (IF scn.cl.comp = "" \/ Mode \notin {"matrix", "faults", "chunks"} THEN {} ELSE {scn.cl.comp})
+HandlerComps == {""} \cup (IF scn.cl.comp \in {"", "identity"} \/ Mode \notin {"matrix", "faults", "chunks"} THEN {} ELSE {scn.cl.comp})
 MsgClasses == {"empty", "ascii", "pct", "nonascii", "ctl"}
 
 ChooseHandler ==
@@ -274,6 +274,9 @@ WriteSizes  == {<<1>>, <<2>>, <<5>>, <<4, 1>>, <<0, 3>>, <<6>>, <<3, 0, 2>>}
 ChooseChunks ==
     /\ ph = "chunks"
     /\ \/ \E c \in BodyChunks : scn' = [scn EXCEPT !.cl.chunks = c]
+       \* a zero-length message in the middle of a client stream, read with every buffer size
+       \/ /\ Len(scn.cl.frames) >= 2
+          /\ \E r \in ReadBuffers : scn' = [scn EXCEPT !.hd.reads = r, !.emptyfirst = TRUE]
        \/ \E r \in ReadBuffers : scn' = [scn EXCEPT !.hd.reads = r]
        \/ \E w \in WriteSizes, fl \in BOOLEAN : scn' = [scn EXCEPT !.hd.writes = w, !.hd.flush = fl]
        \/ \E c \in {<<1>>, <<3>>}, r \in {<<1>>, <<4>>}, w \in {<<1>>, <<0, 3>>} :
